@@ -1,4 +1,4 @@
-import Vinegar.Lemmas.Yaml
+import Vinegar.Lemmas.YamlFuel
 /-
 C11 — the YAML target source compiles the documented targeting/include/merge semantics.
 
@@ -293,30 +293,136 @@ theorem above_root_raises (inc place : Name) (h1 : inc ≠ [""]) (h2 : leadingDo
     · rfl
     · simp
 
-/-
-Full statement (kept visible; not yet proved at this strength):
+/-! ## Fuel adequacy
 
-  theorem expand_fuel_adequate (tree : Tree) (files : List Path)
-      (hfin : ∀ p, tree p ≠ none → p ∈ files) (names : List Name) :
-      ∃ bound, ∀ fuel, bound ≤ fuel →
-        expandList fuel tree [TOPFILE] names = expandList bound tree [TOPFILE] names
-
-i.e. on EVERY finite tree, also when names acquire empty segments (`a..b`, `a.`, which denote
-the same files as `a.b`, `a` but are different cache/cycle keys). What is missing is the
-pushdown argument of DESIGN.md §5 C11: every suffix pushed by a relative include starts with
-a non-empty segment and the path depth is bounded by the tree, so only finitely many names are
-reachable and the ancestor chain (which never repeats a name) is bounded. The theorem below
-proves the statement, with the explicit bound `2·|files| + 2`, on the documented syntax: names
-in the top file and in include lists are dot-separated NON-EMPTY segments (after the leading
-dots of a relative include). There a name determines its path, the ancestors are distinct
-resolvable names plus the top file, hence at most `2·|files| + 1` of them (each file is
-reachable as `p` and, if it is an `init` file, as its directory), so fuel never decides.
+The cycle check of `_process_data_file` compares include NAMES (`file_name in parent_files`),
+and one file has many names: `a.b`, `a..b`, `a.b.`, and in a top list `.a.b` all denote
+`a/b.yaml` (joining an empty segment is the identity in `pathlib`). Therefore the chain of
+ancestors is NOT bounded by the number of files: a file can include itself under ever new
+names without tripping the check (`x/y.yaml = {include: ['..y']}` listed as `x..y` includes
+itself once as `x.y` and then `y.yaml`), and the recursion depth is a polynomial in the
+LENGTHS of the names whose degree is the depth of the tree (see `aliasTree` below and
+DESIGN.md §5 C11 for a two-file tree on which the real code raises `RecursionError`).
+It is bounded all the same (Lemmas/YamlFuel.lean: a name in the chain is a prefix of a
+top-file name followed by at most `D` non-empty prefixes of pushed parts of include names,
+and the names of a chain are pairwise distinct): with
+  `T` = Σ (|t| + 1) over the names `t` selected by the top file (|t| = number of segments),
+  `S` = the number of segments of all include names that occur in the tree,
+  `D` = the number of components of the longest path of the tree,
+the budget `fuelBound = T·(S+1)^D + 1` is always enough. The only hypothesis is that the tree
+is finite; names are arbitrary (those that the code rejects — empty, dots only, above the
+root, without any non-empty segment — end the expansion with their error, for every budget).
 -/
-/-- **Fuel adequacy (clean-name fragment).** On a finite tree whose include names have no
-empty segments, for clean top-file names, every recursion budget of at least
-`2·|files| + 2` gives the same result — data or error — as the budget `2·|files| + 2`:
-Python's recursion limit never decides, and the compiler never loops. -/
-theorem expand_fuel_adequate_partial (tree : Tree) (files : List Path) (hct : CleanTree tree files)
+
+/-- **Fuel adequacy.** On every finite tree and for every list of names, every recursion
+budget of at least `fuelBound tree files names` gives the same result — data or error — as
+that budget: Python's recursion limit never decides above the bound. -/
+theorem expand_fuel_adequate (tree : Tree) (files : List Path) (hfin : ∀ p, tree p ≠ none → p ∈ files)
+    (names : List Name) (fuel : Nat) (hf : fuelBound tree files names ≤ fuel) :
+    expandList fuel tree [TOPFILE] names = expandList (fuelBound tree files names) tree [TOPFILE] names := by
+  unfold expandList
+  cases hr : resolveAll tree names with
+  | error e => rfl
+  | ok rs =>
+    simp only [bindE]
+    apply expandAll_congr
+    intro r hr'
+    obtain ⟨hmem, hres⟩ := resolveAll_mem tree names rs hr r hr'
+    have hchain : FChain tree files names [TOPFILE] := by
+      refine ⟨by simp, ?_⟩
+      intro n hn; simp at hn; exact Or.inl hn
+    have hb := length_cands_lt_fuelBound tree files names
+    apply expandFile_fuel_irrelevant_all tree files names hfin fuel (fuelBound tree files names) [TOPFILE]
+      r.1 r.2.1 r.2.2 hchain (Reach.top hmem) hres
+    · simp only [List.length_cons, List.length_nil]; omega
+    · simp only [List.length_cons, List.length_nil]; omega
+
+/-- … and above the bound the budget is never exhausted: the result is not the
+`RecursionError` of the model (the compiler does not loop). -/
+theorem expand_no_recursion_error (tree : Tree) (files : List Path) (hfin : ∀ p, tree p ≠ none → p ∈ files)
+    (names : List Name) (fuel : Nat) (hf : fuelBound tree files names ≤ fuel) :
+    expandList fuel tree [TOPFILE] names ≠ .error .fuel := by
+  unfold expandList
+  cases hr : resolveAll tree names with
+  | error e =>
+    simp only [bindE]
+    intro h; cases h
+    exact resolveAll_error_ne_fuel tree names _ hr rfl
+  | ok rs =>
+    simp only [bindE]
+    intro hx
+    unfold expandAll at hx
+    cases hm : mapE (fun r => (fun n r nd => expandFile fuel tree [TOPFILE] n r nd) r.1 r.2.1 r.2.2) rs with
+    | ok pss => rw [hm] at hx; simp [bindE] at hx
+    | error e' =>
+      rw [hm] at hx; simp only [bindE] at hx
+      cases hx
+      obtain ⟨r, hr', hre⟩ := mapE_error_mem _ rs _ hm
+      obtain ⟨hmem, hres⟩ := resolveAll_mem tree names rs hr r hr'
+      have hchain : FChain tree files names [TOPFILE] := by
+        refine ⟨by simp, ?_⟩
+        intro n hn; simp at hn; exact Or.inl hn
+      have hb := length_cands_lt_fuelBound tree files names
+      refine expandFile_no_fuel_error tree files names hfin fuel [TOPFILE] r.1 r.2.1 r.2.2 hchain
+        (Reach.top hmem) hres ?_ hre
+      simp only [List.length_cons, List.length_nil]; omega
+
+/-- the same for the whole compilation; `compileBound` is `fuelBound` for the names the top
+file selects -/
+theorem compile_fuel_adequate (cfg : Cfg) (top : TopView) (tree : Tree) (files : List Path)
+    (hfin : ∀ p, tree p ≠ none → p ∈ files) (fuel : Nat) (hf : compileBound cfg top tree files ≤ fuel) :
+    compile cfg fuel top tree = compile cfg (compileBound cfg top tree files) top tree := by
+  unfold compile
+  cases hp : processTop cfg.allowEmptyTop top with
+  | error e => rfl
+  | ok o =>
+    simp only [bindE]
+    cases o with
+    | none => rfl
+    | some ns =>
+      have hb : compileBound cfg top tree files = fuelBound tree files ns := by
+        unfold compileBound; rw [hp]
+      simp only [expandTop]
+      rw [hb] at hf ⊢
+      rw [expand_fuel_adequate tree files hfin ns fuel hf]
+
+theorem compile_no_recursion_error (cfg : Cfg) (top : TopView) (tree : Tree) (files : List Path)
+    (hfin : ∀ p, tree p ≠ none → p ∈ files) (fuel : Nat) (hf : compileBound cfg top tree files ≤ fuel) :
+    compile cfg fuel top tree ≠ .error .fuel := by
+  unfold compile
+  cases hp : processTop cfg.allowEmptyTop top with
+  | error e =>
+    simp only [bindE]
+    intro h; cases h
+    exact processTop_error_ne_fuel _ _ _ hp rfl
+  | ok o =>
+    simp only [bindE]
+    cases o with
+    | none =>
+      simp only [expandTop]
+      intro h
+      exact foldMerge_error_ne_fuel cfg [] [] _ h rfl
+    | some ns =>
+      have hb : compileBound cfg top tree files = fuelBound tree files ns := by
+        unfold compileBound; rw [hp]
+      rw [hb] at hf
+      simp only [expandTop]
+      cases hx : expandList fuel tree [TOPFILE] ns with
+      | error e =>
+        simp only []
+        intro h; cases h
+        exact expand_no_recursion_error tree files hfin ns fuel hf hx
+      | ok ps =>
+        simp only []
+        intro h
+        exact foldMerge_error_ne_fuel cfg [] ps _ h rfl
+
+/-- **Sharper bound on the documented syntax.** On a finite tree whose include names have no
+empty segments, for top-file names without empty segments, a name determines its path, the
+ancestors are distinct resolvable names plus the top file, and already the budget
+`2·|files| + 2` is enough (each file is reachable as `p` and, if it is an `init` file, as its
+directory). This linear bound is FALSE without the restriction: `linear_bound_fails` below. -/
+theorem expand_fuel_adequate_clean (tree : Tree) (files : List Path) (hct : CleanTree tree files)
     (names : List Name) (hnames : ∀ n, n ∈ names → CleanName n) (fuel : Nat)
     (hf : 2 * files.length + 2 ≤ fuel) :
     expandList fuel tree [TOPFILE] names = expandList (2 * files.length + 2) tree [TOPFILE] names := by
@@ -337,7 +443,7 @@ theorem expand_fuel_adequate_partial (tree : Tree) (files : List Path) (hct : Cl
     · simp only [depthBound, List.length_cons, List.length_nil]; omega
 
 /-- the same for the whole compilation -/
-theorem compile_fuel_adequate_partial (cfg : Cfg) (top : TopView) (tree : Tree) (files : List Path)
+theorem compile_fuel_adequate_clean (cfg : Cfg) (top : TopView) (tree : Tree) (files : List Path)
     (hct : CleanTree tree files)
     (hnames : ∀ o ns, processTop cfg.allowEmptyTop top = .ok o → o = some ns → ∀ n, n ∈ ns → CleanName n)
     (fuel : Nat) (hf : 2 * files.length + 2 ≤ fuel) :
@@ -351,12 +457,62 @@ theorem compile_fuel_adequate_partial (cfg : Cfg) (top : TopView) (tree : Tree) 
     | none => rfl
     | some ns =>
       simp only [expandTop]
-      rw [expand_fuel_adequate_partial tree files hct ns (hnames (some ns) ns hp rfl) fuel hf]
+      rw [expand_fuel_adequate_clean tree files hct ns (hnames (some ns) ns hp rfl) fuel hf]
 
-/-- the hypotheses are satisfiable: a two-file tree with a relative include -/
+/-- the hypotheses of the clean fragment are satisfiable: a relative include -/
 example : CleanInc ["", "b"] := by
   unfold CleanInc CleanName
   decide
+
+/-! A tree outside the clean fragment: ONE file `a.yaml` whose include list is `['..a']`
+("the file `a` one directory up"), selected by the top file under the name `.....a` (five
+leading dots, a name of `a.yaml`: the segments `["","","","","","a"]`). Every include drops
+one leading empty segment, the six names `.....a`, `....a`, …, `a` are pairwise distinct, so
+the cycle check never fires and `a.yaml` is expanded six times inside itself before `..a`
+finally points above the root. (`kvs` is any mapping with that include list, e.g.
+`[("include", .list [.str "..a"])]`; `String.splitOn` does not reduce in the kernel, hence the
+hypothesis. The real code behaves identically: `RuntimeError … outside the root` after six
+nested calls; with `k` dots, `k + 1` calls.) -/
+
+def aliasTree (kvs : Mapping) : Tree := fun p => if p = ["a"] then some (.file (.mapping kvs)) else none
+def aliasTop : List Name := [["", "", "", "", "", "a"]]
+
+/-- the hypothesis of `expand_fuel_adequate` is met … -/
+theorem aliasTree_finite (kvs : Mapping) : ∀ p, aliasTree kvs p ≠ none → p ∈ [["a"]] := by
+  intro p hp
+  unfold aliasTree at hp
+  by_cases h : p = ["a"]
+  · simp [h]
+  · simp [h] at hp
+
+/-- … by a case that the clean-name fragment excluded -/
+example : ¬ (∀ n, n ∈ aliasTop → CleanName n) := by
+  intro h
+  exact (h _ List.mem_cons_self).2 (by decide)
+
+/-- **The linear bound fails outside the clean fragment**: one file, so `2·|files| + 2 = 4`,
+but the budget 4 is exhausted while the budget 6 yields the proper error. -/
+theorem linear_bound_fails (kvs : Mapping) (hinc : includeNames (splitAtInclude kvs).2.1 = .ok [["", "", "a"]]) :
+    expandList (2 * [["a"]].length + 2) (aliasTree kvs) [TOPFILE] aliasTop = .error .fuel ∧
+    expandList 6 (aliasTree kvs) [TOPFILE] aliasTop = .error .aboveRoot := by
+  constructor <;>
+  simp [expandList, aliasTop, aliasTree, resolveAll, mapE, resolveFile, pathOf, bindE, expandAll, expandFile,
+    processContent_eq_split, hinc, resolveRelative, stripDots, TOPFILE, List.dropLast]
+
+/-- on this tree `T = 7`, `S = 3`, `D = 1`: the bound is 29 -/
+theorem aliasTree_bound (kvs : Mapping) (hinc : includeNames (splitAtInclude kvs).2.1 = .ok [["", "", "a"]]) :
+    fuelBound (aliasTree kvs) [["a"]] aliasTop = 29 := by
+  simp [fuelBound, treeIncs, incsAt, aliasTree, hinc, totalLen, maxLen, aliasTop]
+
+/-- `expand_fuel_adequate` applied: every budget ≥ 29 gives the `RuntimeError` of the
+reference above the root -/
+theorem aliasTree_result (kvs : Mapping) (hinc : includeNames (splitAtInclude kvs).2.1 = .ok [["", "", "a"]])
+    (fuel : Nat) (hf : 29 ≤ fuel) :
+    expandList fuel (aliasTree kvs) [TOPFILE] aliasTop = .error .aboveRoot := by
+  have hb := aliasTree_bound kvs hinc
+  rw [expand_fuel_adequate (aliasTree kvs) [["a"]] (aliasTree_finite kvs) aliasTop fuel (by rw [hb]; exact hf), hb]
+  simp [expandList, aliasTop, aliasTree, resolveAll, mapE, resolveFile, pathOf, bindE, expandAll, expandFile,
+    processContent_eq_split, hinc, resolveRelative, stripDots, TOPFILE, List.dropLast]
 
 /-- Never partial data: the result is either an error (and then no data at all — the result
 type is a sum), or the merge of the COMPLETE documented piece list of every selected file. -/
